@@ -12,6 +12,7 @@ import (
 	"fmt"
 	"io"
 	"net"
+	"os"
 	"reflect"
 	"sync"
 	"testing"
@@ -236,7 +237,211 @@ func c16Fail(r *rep.Report, sig, detail string) {
 	r.Freeze()
 }
 
-// TestC16RoundTrip: every RPC type with generated values.
+// c16Call is one generated RPC: the request the caller sends and the response
+// (and optionally an error) the handler produces.
+type c16Call struct {
+	Kind       string                        `json:"kind"`
+	HandlerErr bool                          `json:"handler_error"`
+	AE         *raft.AppendEntriesRequest    `json:"ae,omitempty"`
+	AEResp     *raft.AppendEntriesResponse   `json:"ae_resp,omitempty"`
+	RV         *raft.RequestVoteRequest      `json:"rv,omitempty"`
+	RVResp     *raft.RequestVoteResponse     `json:"rv_resp,omitempty"`
+	PV         *raft.RequestPreVoteRequest   `json:"pv,omitempty"`
+	PVResp     *raft.RequestPreVoteResponse  `json:"pv_resp,omitempty"`
+	TN         *raft.TimeoutNowRequest       `json:"tn,omitempty"`
+	TNResp     *raft.TimeoutNowResponse      `json:"tn_resp,omitempty"`
+	IS         *raft.InstallSnapshotRequest  `json:"is,omitempty"`
+	ISResp     *raft.InstallSnapshotResponse `json:"is_resp,omitempty"`
+}
+
+// c16Seq is a sequence of calls made one after the other over one pair of
+// transports (so pooled connections are reused).
+type c16Seq struct {
+	Property string    `json:"property"`
+	Engine   string    `json:"engine"`
+	Test     string    `json:"test"`
+	Mode     string    `json:"mode"`
+	NewTime  bool      `json:"new_time_format"`
+	Calls    []c16Call `json:"calls"`
+	Detail   string    `json:"detail,omitempty"`
+}
+
+func genC16Call(rt *rapid.T) c16Call {
+	c := c16Call{Kind: rapid.SampledFrom([]string{"AE", "AE", "RV", "PV", "IS", "TN"}).Draw(rt, "kind"), HandlerErr: rapid.IntRange(0, 4).Draw(rt, "handlerErr") == 0}
+	switch c.Kind {
+	case "AE":
+		c.AE = genAE(rt)
+		c.AEResp = &raft.AppendEntriesResponse{RPCHeader: genHeader(rt), Term: rapid.Uint64().Draw(rt, "rterm"), LastLog: rapid.Uint64().Draw(rt, "rlast"), Success: rapid.Bool().Draw(rt, "rok"), NoRetryBackoff: rapid.Bool().Draw(rt, "rnb")}
+	case "RV":
+		c.RV = &raft.RequestVoteRequest{RPCHeader: genHeader(rt), Term: rapid.Uint64().Draw(rt, "term"), Candidate: genBytes(rt, "cand", 12), LastLogIndex: rapid.Uint64().Draw(rt, "li"), LastLogTerm: rapid.Uint64().Draw(rt, "lt"), LeadershipTransfer: rapid.Bool().Draw(rt, "lt2")}
+		c.RVResp = &raft.RequestVoteResponse{RPCHeader: genHeader(rt), Term: rapid.Uint64().Draw(rt, "rterm"), Peers: genBytes(rt, "peers", 12), Granted: rapid.Bool().Draw(rt, "granted")}
+	case "PV":
+		c.PV = &raft.RequestPreVoteRequest{RPCHeader: genHeader(rt), Term: rapid.Uint64().Draw(rt, "term"), LastLogIndex: rapid.Uint64().Draw(rt, "li"), LastLogTerm: rapid.Uint64().Draw(rt, "lt")}
+		c.PVResp = &raft.RequestPreVoteResponse{RPCHeader: genHeader(rt), Term: rapid.Uint64().Draw(rt, "rterm"), Granted: rapid.Bool().Draw(rt, "granted")}
+	case "TN":
+		c.TN = &raft.TimeoutNowRequest{RPCHeader: genHeader(rt)}
+		c.TNResp = &raft.TimeoutNowResponse{RPCHeader: genHeader(rt)}
+	case "IS":
+		size := rapid.SampledFrom([]int{0, 1, 100, 4096, 70000, 300000}).Draw(rt, "size")
+		c.IS = &raft.InstallSnapshotRequest{RPCHeader: genHeader(rt), SnapshotVersion: raft.SnapshotVersion(rapid.IntRange(0, 1).Draw(rt, "sv")), Term: rapid.Uint64().Draw(rt, "term"), Leader: genBytes(rt, "leader", 12),
+			LastLogIndex: rapid.Uint64().Draw(rt, "li"), LastLogTerm: rapid.Uint64().Draw(rt, "lt"), Peers: genBytes(rt, "peers", 12), Configuration: genBytes(rt, "conf", 40), ConfigurationIndex: rapid.Uint64().Draw(rt, "ci"), Size: int64(size)}
+		c.ISResp = &raft.InstallSnapshotResponse{RPCHeader: genHeader(rt), Term: rapid.Uint64().Draw(rt, "rterm"), Success: rapid.Bool().Draw(rt, "ok")}
+	}
+	return c
+}
+
+func (c c16Call) nonEmpty() bool {
+	switch c.Kind {
+	case "AE":
+		return len(c.AE.Entries) > 0
+	case "RV":
+		return len(c.RV.Candidate) > 0
+	case "PV":
+		return len(c.PV.RPCHeader.ID) > 0
+	case "TN":
+		return len(c.TN.RPCHeader.ID) > 0
+	}
+	return c.IS.Size > 0
+}
+
+// c16RunSeq makes the calls of seq one after the other and judges each one:
+// the handler must receive exactly the request sent, the caller exactly the
+// response (or the error) the handler produced. Runs inside a bubble.
+func c16RunSeq(seq *c16Seq) string {
+	e := newC16Env(2, seq.NewTime, time.Second)
+	defer e.close()
+	for i, c := range seq.Calls {
+		c := c
+		var want any
+		switch c.Kind {
+		case "AE":
+			want = c.AEResp
+		case "RV":
+			want = c.RVResp
+		case "PV":
+			want = c.PVResp
+		case "TN":
+			want = c.TNResp
+		case "IS":
+			want = c.ISResp
+		}
+		e.mu.Lock()
+		e.answer = func(int, any) (any, error, time.Duration) {
+			if c.HandlerErr {
+				return want, errors.New("handler says no"), 0
+			}
+			return want, nil, 0
+		}
+		e.mu.Unlock()
+		var err error
+		var cmpReq func(any) string
+		var cmpResp func() string
+		switch c.Kind {
+		case "AE":
+			var got raft.AppendEntriesResponse
+			err = e.t1.AppendEntries("n2", "n2", c.AE, &got)
+			cmpReq = func(cmd any) string {
+				b, ok := cmd.(*raft.AppendEntriesRequest)
+				if !ok {
+					return fmt.Sprintf("handler received %T", cmd)
+				}
+				return eqAE(c.AE, b)
+			}
+			cmpResp = func() string {
+				w := c.AEResp
+				if !eqHeader(got.RPCHeader, w.RPCHeader) || got.Term != w.Term || got.LastLog != w.LastLog || got.Success != w.Success || got.NoRetryBackoff != w.NoRetryBackoff {
+					return fmt.Sprintf("response: handler produced %+v caller received %+v", *w, got)
+				}
+				return ""
+			}
+		case "RV":
+			var got raft.RequestVoteResponse
+			req := c.RV
+			err = e.t1.RequestVote("n2", "n2", req, &got)
+			cmpReq = func(cmd any) string {
+				b, ok := cmd.(*raft.RequestVoteRequest)
+				if !ok || !eqHeader(req.RPCHeader, b.RPCHeader) || req.Term != b.Term || !eqBytes(req.Candidate, b.Candidate) || req.LastLogIndex != b.LastLogIndex || req.LastLogTerm != b.LastLogTerm || req.LeadershipTransfer != b.LeadershipTransfer {
+					return fmt.Sprintf("sent %+v received %+v", *req, cmd)
+				}
+				return ""
+			}
+			cmpResp = func() string {
+				w := c.RVResp
+				if !eqHeader(got.RPCHeader, w.RPCHeader) || got.Term != w.Term || !eqBytes(got.Peers, w.Peers) || got.Granted != w.Granted {
+					return fmt.Sprintf("response: handler produced %+v caller received %+v", *w, got)
+				}
+				return ""
+			}
+		case "PV":
+			var got raft.RequestPreVoteResponse
+			req := c.PV
+			err = e.t1.RequestPreVote("n2", "n2", req, &got)
+			cmpReq = func(cmd any) string {
+				b, ok := cmd.(*raft.RequestPreVoteRequest)
+				if !ok || !eqHeader(req.RPCHeader, b.RPCHeader) || req.Term != b.Term || req.LastLogIndex != b.LastLogIndex || req.LastLogTerm != b.LastLogTerm {
+					return fmt.Sprintf("sent %+v received %+v", *req, cmd)
+				}
+				return ""
+			}
+			cmpResp = func() string {
+				w := c.PVResp
+				if !eqHeader(got.RPCHeader, w.RPCHeader) || got.Term != w.Term || got.Granted != w.Granted {
+					return fmt.Sprintf("response: handler produced %+v caller received %+v", *w, got)
+				}
+				return ""
+			}
+		case "TN":
+			var got raft.TimeoutNowResponse
+			req := c.TN
+			err = e.t1.TimeoutNow("n2", "n2", req, &got)
+			cmpReq = func(cmd any) string {
+				b, ok := cmd.(*raft.TimeoutNowRequest)
+				if !ok || !eqHeader(req.RPCHeader, b.RPCHeader) {
+					return fmt.Sprintf("sent %+v received %+v", *req, cmd)
+				}
+				return ""
+			}
+			cmpResp = func() string {
+				if !eqHeader(got.RPCHeader, c.TNResp.RPCHeader) {
+					return fmt.Sprintf("response: handler produced %+v caller received %+v", *c.TNResp, got)
+				}
+				return ""
+			}
+		case "IS":
+			var got raft.InstallSnapshotResponse
+			req := c.IS
+			body := c15Content(int(req.Size)+1, int(req.Size))
+			err = e.t1.InstallSnapshot("n2", "n2", req, &got, bytes.NewReader(body))
+			cmpReq = func(cmd any) string {
+				b, ok := cmd.(*raft.InstallSnapshotRequest)
+				if !ok || !eqHeader(req.RPCHeader, b.RPCHeader) || req.SnapshotVersion != b.SnapshotVersion || req.Term != b.Term || !eqBytes(req.Leader, b.Leader) || req.LastLogIndex != b.LastLogIndex ||
+					req.LastLogTerm != b.LastLogTerm || !eqBytes(req.Peers, b.Peers) || !eqBytes(req.Configuration, b.Configuration) || req.ConfigurationIndex != b.ConfigurationIndex || req.Size != b.Size {
+					return fmt.Sprintf("sent %+v received %+v", *req, cmd)
+				}
+				e.mu.Lock()
+				defer e.mu.Unlock()
+				if !bytes.Equal(e.bodies[i], body) {
+					return fmt.Sprintf("snapshot body: sent %d bytes, handler read %d bytes (equal=%v)", len(body), len(e.bodies[i]), bytes.Equal(e.bodies[i], body))
+				}
+				return ""
+			}
+			cmpResp = func() string {
+				w := c.ISResp
+				if !eqHeader(got.RPCHeader, w.RPCHeader) || got.Term != w.Term || got.Success != w.Success {
+					return fmt.Sprintf("response: handler produced %+v caller received %+v", *w, got)
+				}
+				return ""
+			}
+		}
+		if d := c16Judge(e, i, err, c.HandlerErr, cmpReq, cmpResp); d != "" {
+			return fmt.Sprintf("call %d (%s): %s", i, c.Kind, d)
+		}
+	}
+	return ""
+}
+
+// TestC16RoundTrip: sequences of every RPC type with generated values over one
+// pair of transports; some handlers answer with an error.
 func TestC16RoundTrip(t *testing.T) {
 	r := rep.New("C16", "roundtrip")
 	r.Extra("test", "TestC16RoundTrip")
@@ -245,183 +450,46 @@ func TestC16RoundTrip(t *testing.T) {
 		if r.Frozen() {
 			return
 		}
-		kind := rapid.SampledFrom([]string{"AE", "AE", "RV", "PV", "IS", "TN"}).Draw(rt, "kind")
-		newTime := rapid.Bool().Draw(rt, "newTimeFormat")
-		handlerErr := rapid.IntRange(0, 5).Draw(rt, "handlerErr") == 0
-		var detail string
-		nonEmpty := false
-		switch kind {
-		case "AE":
-			req := genAE(rt)
-			nonEmpty = len(req.Entries) > 0
-			want := &raft.AppendEntriesResponse{RPCHeader: genHeader(rt), Term: rapid.Uint64().Draw(rt, "rterm"), LastLog: rapid.Uint64().Draw(rt, "rlast"), Success: rapid.Bool().Draw(rt, "rok"), NoRetryBackoff: rapid.Bool().Draw(rt, "rnb")}
-			sim.Bubble(t, func() {
-				e := newC16Env(2, newTime, time.Second)
-				defer e.close()
-				e.answer = func(int, any) (any, error, time.Duration) {
-					if handlerErr {
-						return want, errors.New("handler says no"), 0
-					}
-					return want, nil, 0
-				}
-				var got raft.AppendEntriesResponse
-				err := e.t1.AppendEntries("n2", "n2", req, &got)
-				detail = c16Judge(e, err, handlerErr, func(cmd any) string {
-					b, ok := cmd.(*raft.AppendEntriesRequest)
-					if !ok {
-						return fmt.Sprintf("handler received %T", cmd)
-					}
-					return eqAE(req, b)
-				}, func() string {
-					if !eqHeader(got.RPCHeader, want.RPCHeader) || got.Term != want.Term || got.LastLog != want.LastLog || got.Success != want.Success || got.NoRetryBackoff != want.NoRetryBackoff {
-						return fmt.Sprintf("response: handler produced %+v caller received %+v", *want, got)
-					}
-					return ""
-				})
-			})
-		case "RV":
-			req := &raft.RequestVoteRequest{RPCHeader: genHeader(rt), Term: rapid.Uint64().Draw(rt, "term"), Candidate: genBytes(rt, "cand", 12), LastLogIndex: rapid.Uint64().Draw(rt, "li"), LastLogTerm: rapid.Uint64().Draw(rt, "lt"), LeadershipTransfer: rapid.Bool().Draw(rt, "lt2")}
-			want := &raft.RequestVoteResponse{RPCHeader: genHeader(rt), Term: rapid.Uint64().Draw(rt, "rterm"), Peers: genBytes(rt, "peers", 12), Granted: rapid.Bool().Draw(rt, "granted")}
-			nonEmpty = len(req.Candidate) > 0
-			sim.Bubble(t, func() {
-				e := newC16Env(2, newTime, time.Second)
-				defer e.close()
-				e.answer = func(int, any) (any, error, time.Duration) {
-					if handlerErr {
-						return want, errors.New("handler says no"), 0
-					}
-					return want, nil, 0
-				}
-				var got raft.RequestVoteResponse
-				err := e.t1.RequestVote("n2", "n2", req, &got)
-				detail = c16Judge(e, err, handlerErr, func(cmd any) string {
-					b, ok := cmd.(*raft.RequestVoteRequest)
-					if !ok || !eqHeader(req.RPCHeader, b.RPCHeader) || req.Term != b.Term || !eqBytes(req.Candidate, b.Candidate) || req.LastLogIndex != b.LastLogIndex || req.LastLogTerm != b.LastLogTerm || req.LeadershipTransfer != b.LeadershipTransfer {
-						return fmt.Sprintf("sent %+v received %+v", *req, cmd)
-					}
-					return ""
-				}, func() string {
-					if !eqHeader(got.RPCHeader, want.RPCHeader) || got.Term != want.Term || !eqBytes(got.Peers, want.Peers) || got.Granted != want.Granted {
-						return fmt.Sprintf("response: handler produced %+v caller received %+v", *want, got)
-					}
-					return ""
-				})
-			})
-		case "PV":
-			req := &raft.RequestPreVoteRequest{RPCHeader: genHeader(rt), Term: rapid.Uint64().Draw(rt, "term"), LastLogIndex: rapid.Uint64().Draw(rt, "li"), LastLogTerm: rapid.Uint64().Draw(rt, "lt")}
-			want := &raft.RequestPreVoteResponse{RPCHeader: genHeader(rt), Term: rapid.Uint64().Draw(rt, "rterm"), Granted: rapid.Bool().Draw(rt, "granted")}
-			nonEmpty = len(req.RPCHeader.ID) > 0
-			sim.Bubble(t, func() {
-				e := newC16Env(2, newTime, time.Second)
-				defer e.close()
-				e.answer = func(int, any) (any, error, time.Duration) {
-					if handlerErr {
-						return want, errors.New("handler says no"), 0
-					}
-					return want, nil, 0
-				}
-				var got raft.RequestPreVoteResponse
-				err := e.t1.RequestPreVote("n2", "n2", req, &got)
-				detail = c16Judge(e, err, handlerErr, func(cmd any) string {
-					b, ok := cmd.(*raft.RequestPreVoteRequest)
-					if !ok || !eqHeader(req.RPCHeader, b.RPCHeader) || req.Term != b.Term || req.LastLogIndex != b.LastLogIndex || req.LastLogTerm != b.LastLogTerm {
-						return fmt.Sprintf("sent %+v received %+v", *req, cmd)
-					}
-					return ""
-				}, func() string {
-					if !eqHeader(got.RPCHeader, want.RPCHeader) || got.Term != want.Term || got.Granted != want.Granted {
-						return fmt.Sprintf("response: handler produced %+v caller received %+v", *want, got)
-					}
-					return ""
-				})
-			})
-		case "TN":
-			req := &raft.TimeoutNowRequest{RPCHeader: genHeader(rt)}
-			want := &raft.TimeoutNowResponse{RPCHeader: genHeader(rt)}
-			nonEmpty = len(req.RPCHeader.ID) > 0
-			sim.Bubble(t, func() {
-				e := newC16Env(2, newTime, time.Second)
-				defer e.close()
-				e.answer = func(int, any) (any, error, time.Duration) {
-					if handlerErr {
-						return want, errors.New("handler says no"), 0
-					}
-					return want, nil, 0
-				}
-				var got raft.TimeoutNowResponse
-				err := e.t1.TimeoutNow("n2", "n2", req, &got)
-				detail = c16Judge(e, err, handlerErr, func(cmd any) string {
-					b, ok := cmd.(*raft.TimeoutNowRequest)
-					if !ok || !eqHeader(req.RPCHeader, b.RPCHeader) {
-						return fmt.Sprintf("sent %+v received %+v", *req, cmd)
-					}
-					return ""
-				}, func() string {
-					if !eqHeader(got.RPCHeader, want.RPCHeader) {
-						return fmt.Sprintf("response: handler produced %+v caller received %+v", *want, got)
-					}
-					return ""
-				})
-			})
-		case "IS":
-			size := rapid.SampledFrom([]int{0, 1, 100, 4096, 70000, 300000}).Draw(rt, "size")
-			body := c15Content(size+1, size)
-			req := &raft.InstallSnapshotRequest{RPCHeader: genHeader(rt), SnapshotVersion: raft.SnapshotVersion(rapid.IntRange(0, 1).Draw(rt, "sv")), Term: rapid.Uint64().Draw(rt, "term"), Leader: genBytes(rt, "leader", 12),
-				LastLogIndex: rapid.Uint64().Draw(rt, "li"), LastLogTerm: rapid.Uint64().Draw(rt, "lt"), Peers: genBytes(rt, "peers", 12), Configuration: genBytes(rt, "conf", 40), ConfigurationIndex: rapid.Uint64().Draw(rt, "ci"), Size: int64(size)}
-			want := &raft.InstallSnapshotResponse{RPCHeader: genHeader(rt), Term: rapid.Uint64().Draw(rt, "rterm"), Success: rapid.Bool().Draw(rt, "ok")}
-			nonEmpty = size > 0
-			sim.Bubble(t, func() {
-				e := newC16Env(2, newTime, time.Second)
-				defer e.close()
-				e.answer = func(int, any) (any, error, time.Duration) {
-					if handlerErr {
-						return want, errors.New("handler says no"), 0
-					}
-					return want, nil, 0
-				}
-				var got raft.InstallSnapshotResponse
-				err := e.t1.InstallSnapshot("n2", "n2", req, &got, bytes.NewReader(body))
-				detail = c16Judge(e, err, handlerErr, func(cmd any) string {
-					b, ok := cmd.(*raft.InstallSnapshotRequest)
-					if !ok || !eqHeader(req.RPCHeader, b.RPCHeader) || req.SnapshotVersion != b.SnapshotVersion || req.Term != b.Term || !eqBytes(req.Leader, b.Leader) || req.LastLogIndex != b.LastLogIndex ||
-						req.LastLogTerm != b.LastLogTerm || !eqBytes(req.Peers, b.Peers) || !eqBytes(req.Configuration, b.Configuration) || req.ConfigurationIndex != b.ConfigurationIndex || req.Size != b.Size {
-						return fmt.Sprintf("sent %+v received %+v", *req, cmd)
-					}
-					e.mu.Lock()
-					defer e.mu.Unlock()
-					if !bytes.Equal(e.bodies[0], body) {
-						return fmt.Sprintf("snapshot body: sent %d bytes, handler read %d bytes (equal=%v)", len(body), len(e.bodies[0]), bytes.Equal(e.bodies[0], body))
-					}
-					return ""
-				}, func() string {
-					if !eqHeader(got.RPCHeader, want.RPCHeader) || got.Term != want.Term || got.Success != want.Success {
-						return fmt.Sprintf("response: handler produced %+v caller received %+v", *want, got)
-					}
-					return ""
-				})
-			})
+		seq := &c16Seq{Property: "C16", Engine: "unit", Test: "TestC16Replay", Mode: "sequence", NewTime: rapid.Bool().Draw(rt, "newTimeFormat")}
+		n := rapid.IntRange(1, 4).Draw(rt, "calls")
+		nonEmpty, errThenMore := false, false
+		var kinds []string
+		for i := 0; i < n; i++ {
+			c := genC16Call(rt)
+			seq.Calls = append(seq.Calls, c)
+			nonEmpty = nonEmpty || c.nonEmpty()
+			if c.HandlerErr && i < n-1 {
+				errThenMore = true
+			}
+			kinds = append(kinds, c.Kind)
 		}
-		r.Case(nonEmpty, rep.Hash(kind, newTime, handlerErr, rt), kind, map[bool]string{true: "handler-error", false: "handler-ok"}[handlerErr])
+		var detail string
+		sim.Bubble(t, func() { detail = c16RunSeq(seq) })
+		r.Case(nonEmpty, rep.Hash(fmt.Sprint(kinds), seq.NewTime, errThenMore, rt), kinds[0], map[bool]string{true: "handler-error-then-more-calls", false: "no-handler-error-before-a-call"}[errThenMore])
 		if nonEmpty && r.WantSample() {
-			r.Sample(map[string]any{"rpc": kind, "new_time_format": newTime, "handler_error": handlerErr})
+			r.Sample(map[string]any{"rpcs": kinds, "new_time_format": seq.NewTime, "handler_error_then_more_calls": errThenMore})
 		}
 		if detail != "" {
-			c16Fail(r, "R1/round-trip-differs", kind+": "+detail)
+			seq.Detail = detail
+			path := fmt.Sprintf("%s/C16-roundtrip-%d.json", rep.ReplayDir(), os.Getpid())
+			writeJSON(path, seq)
+			r.Violate("C16", "R", "C16/R1/round-trip-differs", detail, path)
+			r.Freeze()
 			rt.Fatalf("%s", detail)
 		}
 	})
 }
 
-func c16Judge(e *c16Env, err error, handlerErr bool, cmpReq func(any) string, cmpResp func() string) string {
+func c16Judge(e *c16Env, i int, err error, handlerErr bool, cmpReq func(any) string, cmpResp func() string) string {
 	e.mu.Lock()
 	n := len(e.received)
 	var cmd any
-	if n > 0 {
-		cmd = e.received[0]
+	if n > i {
+		cmd = e.received[i]
 	}
 	e.mu.Unlock()
-	if n != 1 {
-		return fmt.Sprintf("handler received %d requests (call error: %v)", n, err)
+	if n != i+1 {
+		return fmt.Sprintf("handler received %d requests after %d calls (call error: %v)", n, i+1, err)
 	}
 	if d := cmpReq(cmd); d != "" {
 		return "request: " + d
@@ -440,6 +508,146 @@ func c16Judge(e *c16Env, err error, handlerErr bool, cmpReq func(any) string, cm
 
 // TestC16Pipeline: order and pairing on a pipeline, and own-response-or-error
 // on the pooled connections after a broken exchange.
+// c16Pipe is one generated pipeline scenario.
+type c16Pipe struct {
+	Property    string   `json:"property"`
+	Engine      string   `json:"engine"`
+	Test        string   `json:"test"`
+	Mode        string   `json:"mode"`
+	MaxInFlight int      `json:"max_in_flight"`
+	Depth       int      `json:"depth"`
+	Delays      []int    `json:"handler_delays_ms"`
+	BreakAt     int      `json:"break_after_bytes"`
+	CallsAfter  int      `json:"calls_after"`
+	Refuse      []uint64 `json:"handler_refuses_terms"` // requests answered with a response and an error
+	Detail      string   `json:"detail,omitempty"`
+	refuse      map[uint64]bool
+}
+
+// c16RunPipeline runs inside a bubble.
+func c16RunPipeline(pc *c16Pipe) (detail string) {
+	pc.refuse = map[uint64]bool{}
+	for _, t := range pc.Refuse {
+		pc.refuse[t] = true
+	}
+	e := newC16Env(pc.MaxInFlight, false, 2*time.Second) // net.Pipe has no buffer: a writer waits for the (sequential) handler, keep time-outs above the summed delays
+	defer e.close()
+	e.answer = func(n int, cmd any) (any, error, time.Duration) {
+		a := cmd.(*raft.AppendEntriesRequest)
+		d := time.Duration(0)
+		if int(a.PrevLogEntry) < len(pc.Delays) {
+			d = time.Duration(pc.Delays[a.PrevLogEntry]) * time.Millisecond
+		}
+		var herr error
+		if pc.refuse[a.Term] {
+			herr = fmt.Errorf("handler refuses %d", a.Term)
+		}
+		return &raft.AppendEntriesResponse{Term: a.Term, LastLog: a.Term*7 + 3, Success: true}, herr, d
+	}
+	e.net.mu.Lock()
+	e.net.breakAfter = pc.BreakAt
+	e.net.mu.Unlock()
+	p, err := e.t1.AppendEntriesPipeline("n2", "n2")
+	if err != nil {
+		detail = "cannot open pipeline: " + err.Error()
+		return detail
+	}
+	// a pipeline must be drained concurrently (as raft's pipelineDecode does)
+	var mu sync.Mutex
+	var futs []raft.AppendFuture
+	var completed []raft.AppendFuture
+	stopDrain := make(chan struct{})
+	drained := make(chan struct{})
+	go func() {
+		defer close(drained)
+		for {
+			select {
+			case f := <-p.Consumer():
+				mu.Lock()
+				completed = append(completed, f)
+				mu.Unlock()
+			case <-stopDrain:
+				return
+			}
+		}
+	}()
+	sent := 0
+	for i := 0; i < pc.Depth; i++ {
+		req := &raft.AppendEntriesRequest{Term: uint64(1000 + i), PrevLogEntry: uint64(i), Entries: []*raft.Log{{Index: uint64(i), Data: c15Content(i, 30)}}}
+		f, err := p.AppendEntries(req, &raft.AppendEntriesResponse{})
+		if err != nil {
+			break
+		}
+		mu.Lock()
+		futs = append(futs, f)
+		mu.Unlock()
+		sent++
+	}
+	// wait until everything sent has completed (or nothing moves any more)
+	for w := 0; w < 20000; w++ {
+		mu.Lock()
+		n := len(completed)
+		mu.Unlock()
+		if n >= sent {
+			break
+		}
+		time.Sleep(time.Millisecond)
+	}
+	close(stopDrain)
+	<-drained
+	// completion order must be send order, each paired with its own request
+	for got, f := range completed {
+		if got >= len(futs) || f != futs[got] {
+			detail = fmt.Sprintf("pipeline future %d completed out of order", got)
+			break
+		}
+		if err := f.Error(); err != nil && pc.refuse[f.Request().Term] && err.Error() == fmt.Sprintf("handler refuses %d", f.Request().Term) {
+			continue // the handler's own error, delivered to its own request
+		} else if err == nil && pc.refuse[f.Request().Term] {
+			detail = fmt.Sprintf("pipeline future %d: the handler's error was not delivered", got)
+			break
+		} else if err == nil {
+			if f.Response().Term != f.Request().Term || f.Response().LastLog != f.Request().Term*7+3 {
+				detail = fmt.Sprintf("pipeline future %d: request term %d paired with response (term %d, lastlog %d)", got, f.Request().Term, f.Response().Term, f.Response().LastLog)
+				break
+			}
+		} else if pc.BreakAt == 0 {
+			detail = fmt.Sprintf("pipeline future %d failed without a fault: %v", got, err)
+			break
+		} else {
+			break // broken pipeline: the rest is not delivered
+		}
+	}
+	if detail == "" && pc.BreakAt == 0 && len(completed) < sent {
+		detail = fmt.Sprintf("only %d of %d pipeline futures completed", len(completed), sent)
+	}
+	_ = p.Close()
+	if detail != "" {
+		return detail
+	}
+	// ordinary calls afterwards (pooled connections): own response or an error
+	for i := 0; i < pc.CallsAfter; i++ {
+		req := &raft.AppendEntriesRequest{Term: uint64(5000 + i), PrevLogEntry: 9999}
+		var resp raft.AppendEntriesResponse
+		err := e.t1.AppendEntries("n2", "n2", req, &resp)
+		switch {
+		case err == nil && pc.refuse[req.Term]:
+			detail = fmt.Sprintf("call %d after the pipeline: the handler's error was not delivered", i)
+			return detail
+		case err == nil:
+			if resp.Term != req.Term || resp.LastLog != req.Term*7+3 {
+				detail = fmt.Sprintf("call %d after the pipeline: request term %d got the response of another request (term %d, lastlog %d)", i, req.Term, resp.Term, resp.LastLog)
+				return detail
+			}
+		case pc.refuse[req.Term] && err.Error() == fmt.Sprintf("handler refuses %d", req.Term):
+		case pc.BreakAt == 0:
+			detail = fmt.Sprintf("call %d after the pipeline failed without a network fault: %v", i, err)
+			return detail
+		}
+	}
+	return detail
+}
+
 func TestC16Pipeline(t *testing.T) {
 	r := rep.New("C16", "pipeline")
 	r.Extra("test", "TestC16Pipeline")
@@ -448,130 +656,72 @@ func TestC16Pipeline(t *testing.T) {
 		if r.Frozen() {
 			return
 		}
-		maxInFlight := rapid.SampledFrom([]int{2, 3, 10, 130}).Draw(rt, "maxInFlight")
-		depth := rapid.IntRange(1, 12).Draw(rt, "depth")
-		delays := rapid.SliceOfN(rapid.SampledFrom([]int{0, 0, 1, 5, 20}), depth, depth).Draw(rt, "delays")
-		breakAt := 0
+		pc := &c16Pipe{Property: "C16", Engine: "unit", Test: "TestC16Replay", Mode: "pipeline"}
+		pc.MaxInFlight = rapid.SampledFrom([]int{2, 3, 10, 130}).Draw(rt, "maxInFlight")
+		pc.Depth = rapid.IntRange(1, 12).Draw(rt, "depth")
+		pc.Delays = rapid.SliceOfN(rapid.SampledFrom([]int{0, 0, 1, 5, 20}), pc.Depth, pc.Depth).Draw(rt, "delays")
 		if rapid.IntRange(0, 2).Draw(rt, "fault") == 0 {
-			breakAt = rapid.IntRange(1, 400).Draw(rt, "breakAfterBytes")
+			pc.BreakAt = rapid.IntRange(1, 400).Draw(rt, "breakAfterBytes")
 		}
-		nAfter := rapid.IntRange(1, 4).Draw(rt, "callsAfter")
-		var detail string
+		pc.CallsAfter = rapid.IntRange(1, 4).Draw(rt, "callsAfter")
+		// requests the handler answers with a response AND an error (no network fault)
+		for i := 0; i < pc.Depth+pc.CallsAfter; i++ {
+			if rapid.IntRange(0, 5).Draw(rt, "handlerErr") == 0 {
+				if i < pc.Depth {
+					pc.Refuse = append(pc.Refuse, uint64(1000+i))
+				} else {
+					pc.Refuse = append(pc.Refuse, uint64(5000+i-pc.Depth))
+				}
+			}
+		}
 		reordered := false
-		for i := 1; i < depth; i++ {
-			if delays[i] < delays[i-1] {
+		for i := 1; i < pc.Depth; i++ {
+			if pc.Delays[i] < pc.Delays[i-1] {
 				reordered = true
 			}
 		}
-		sim.Bubble(t, func() {
-			e := newC16Env(maxInFlight, false, 2*time.Second) // net.Pipe has no buffer: a writer waits for the (sequential) handler, keep time-outs above the summed delays
-			defer e.close()
-			e.answer = func(n int, cmd any) (any, error, time.Duration) {
-				a := cmd.(*raft.AppendEntriesRequest)
-				d := time.Duration(0)
-				if int(a.PrevLogEntry) < len(delays) {
-					d = time.Duration(delays[a.PrevLogEntry]) * time.Millisecond
-				}
-				return &raft.AppendEntriesResponse{Term: a.Term, LastLog: a.Term*7 + 3, Success: true}, nil, d
-			}
-			e.net.mu.Lock()
-			e.net.breakAfter = breakAt
-			e.net.mu.Unlock()
-			p, err := e.t1.AppendEntriesPipeline("n2", "n2")
-			if err != nil {
-				detail = "cannot open pipeline: " + err.Error()
-				return
-			}
-			// a pipeline must be drained concurrently (as raft's pipelineDecode does)
-			var mu sync.Mutex
-			var futs []raft.AppendFuture
-			var completed []raft.AppendFuture
-			stopDrain := make(chan struct{})
-			drained := make(chan struct{})
-			go func() {
-				defer close(drained)
-				for {
-					select {
-					case f := <-p.Consumer():
-						mu.Lock()
-						completed = append(completed, f)
-						mu.Unlock()
-					case <-stopDrain:
-						return
-					}
-				}
-			}()
-			sent := 0
-			for i := 0; i < depth; i++ {
-				req := &raft.AppendEntriesRequest{Term: uint64(1000 + i), PrevLogEntry: uint64(i), Entries: []*raft.Log{{Index: uint64(i), Data: c15Content(i, 30)}}}
-				f, err := p.AppendEntries(req, &raft.AppendEntriesResponse{})
-				if err != nil {
-					break
-				}
-				mu.Lock()
-				futs = append(futs, f)
-				mu.Unlock()
-				sent++
-			}
-			// wait until everything sent has completed (or nothing moves any more)
-			for w := 0; w < 20000; w++ {
-				mu.Lock()
-				n := len(completed)
-				mu.Unlock()
-				if n >= sent {
-					break
-				}
-				time.Sleep(time.Millisecond)
-			}
-			close(stopDrain)
-			<-drained
-			// completion order must be send order, each paired with its own request
-			for got, f := range completed {
-				if got >= len(futs) || f != futs[got] {
-					detail = fmt.Sprintf("pipeline future %d completed out of order", got)
-					break
-				}
-				if err := f.Error(); err == nil {
-					if f.Response().Term != f.Request().Term || f.Response().LastLog != f.Request().Term*7+3 {
-						detail = fmt.Sprintf("pipeline future %d: request term %d paired with response (term %d, lastlog %d)", got, f.Request().Term, f.Response().Term, f.Response().LastLog)
-						break
-					}
-				} else if breakAt == 0 {
-					detail = fmt.Sprintf("pipeline future %d failed without a fault: %v", got, err)
-					break
-				} else {
-					break // broken pipeline: the rest is not delivered
-				}
-			}
-			if detail == "" && breakAt == 0 && len(completed) < sent {
-				detail = fmt.Sprintf("only %d of %d pipeline futures completed", len(completed), sent)
-			}
-			_ = p.Close()
-			if detail != "" {
-				return
-			}
-			// ordinary calls afterwards (pooled connections): own response or an error
-			for i := 0; i < nAfter; i++ {
-				req := &raft.AppendEntriesRequest{Term: uint64(5000 + i), PrevLogEntry: 9999}
-				var resp raft.AppendEntriesResponse
-				if err := e.t1.AppendEntries("n2", "n2", req, &resp); err == nil {
-					if resp.Term != req.Term || resp.LastLog != req.Term*7+3 {
-						detail = fmt.Sprintf("call %d after the pipeline: request term %d got the response of another request (term %d, lastlog %d)", i, req.Term, resp.Term, resp.LastLog)
-						return
-					}
-				}
-			}
-		})
-		r.Case(depth >= 2 && reordered, rep.Hash(maxInFlight, depth, fmt.Sprint(delays), breakAt, nAfter), map[bool]string{true: "connection-fault", false: "no-fault"}[breakAt > 0])
-		if depth >= 2 && reordered && r.WantSample() {
-			r.Sample(map[string]any{"max_in_flight": maxInFlight, "depth": depth, "handler_delays_ms": delays, "break_after_bytes": breakAt, "calls_after": nAfter})
+		var detail string
+		sim.Bubble(t, func() { detail = c16RunPipeline(pc) })
+		r.Case(pc.Depth >= 2 && reordered, rep.Hash(pc.MaxInFlight, pc.Depth, fmt.Sprint(pc.Delays), pc.BreakAt, pc.CallsAfter, fmt.Sprint(pc.Refuse)), map[bool]string{true: "connection-fault", false: "no-fault"}[pc.BreakAt > 0], map[bool]string{true: "handler-error-then-more-traffic", false: "no-handler-error"}[len(pc.Refuse) > 0])
+		if pc.Depth >= 2 && reordered && r.WantSample() {
+			r.Sample(map[string]any{"max_in_flight": pc.MaxInFlight, "depth": pc.Depth, "handler_delays_ms": pc.Delays, "break_after_bytes": pc.BreakAt, "calls_after": pc.CallsAfter, "handler_refuses": pc.Refuse})
 		}
 		if detail != "" {
-			detail = fmt.Sprintf("maxInFlight=%d depth=%d delays=%v breakAfterBytes=%d callsAfter=%d: %s", maxInFlight, depth, delays, breakAt, nAfter, detail)
-			c16Fail(r, "R2/pipeline-order-or-pairing", detail)
+			detail = fmt.Sprintf("maxInFlight=%d depth=%d delays=%v breakAfterBytes=%d callsAfter=%d refuses=%v: %s", pc.MaxInFlight, pc.Depth, pc.Delays, pc.BreakAt, pc.CallsAfter, pc.Refuse, detail)
+			pc.Detail = detail
+			path := fmt.Sprintf("%s/C16-pipeline-%d.json", rep.ReplayDir(), os.Getpid())
+			writeJSON(path, pc)
+			r.Violate("C16", "R", "C16/R2/pipeline-order-or-pairing", detail, path)
+			r.Freeze()
 			rt.Fatalf("%s", detail)
 		}
 	})
+}
+
+// TestC16Replay re-runs a saved failing case without the library.
+func TestC16Replay(t *testing.T) {
+	path := os.Getenv("VERIF_REPLAY")
+	if path == "" {
+		t.Skip("VERIF_REPLAY not set")
+	}
+	var head struct {
+		Mode string `json:"mode"`
+	}
+	readJSON(t, path, &head)
+	var detail string
+	if head.Mode == "pipeline" {
+		var pc c16Pipe
+		readJSON(t, path, &pc)
+		sim.Bubble(t, func() { detail = c16RunPipeline(&pc) })
+	} else {
+		var seq c16Seq
+		readJSON(t, path, &seq)
+		sim.Bubble(t, func() { detail = c16RunSeq(&seq) })
+	}
+	if detail != "" {
+		t.Fatalf("VIOLATION property=C16 replay=%s\n%s", path, detail)
+	}
+	t.Log("REPLAY-OK property=C16")
 }
 
 var _ = reflect.DeepEqual
